@@ -33,6 +33,9 @@ CASE_TIMEOUT = {'quick': 120, 'thorough': 300}
 TOL = 1e-6
 
 
+# appended to RULE in the evidence (vlib/runner.py)
+RULE_ADDENDUM = 'Added in round 5: leaks whose start / end instants coincide exactly at an off-grid instant.'
+
 def n_cases(tier):
     return 200 if tier == 'quick' else 3000
 
